@@ -138,10 +138,10 @@ pub fn run(tier: Tier, replay: Option<Value>) -> i32 {
     let run = Run::new("C09", "fault_enumeration", tier, replay.clone());
     let healthy_replay = replay.as_ref().and_then(|r| r.get("healthy")).is_some();
     if replay.is_none() || healthy_replay {
-        run.par_cases(tier.pick(120, 1500), super::threads(), |c| healthy_history(&run, c));
+        run.par_cases(tier.pick(120, 5000), super::threads(), |c| healthy_history(&run, c));
     }
     if !healthy_replay {
-        let n = tier.pick(6u64, 60);
+        let n = tier.pick(6u64, 200);
         for case in 0..n {
             if let Some(r) = &replay {
                 if r.get("case").and_then(|c| c.as_u64()) != Some(case) {
